@@ -56,8 +56,10 @@ Step(e) ==
                        Mismatch(l, [ev |-> "hist", op |-> e.op, k |-> e.k, seeds |-> e.seeds],
                                 [arrangements_reached |-> Len(e.arrs), of |-> Fact(e.k), outside_30_percent |-> {<<e.arrs[i], e.counts[i]>> : i \in B}])
            [] e.ev = "period" ->
-                (~NotPeriodic(e.vals, 64)) => Mismatch(l, [ev |-> "period", op |-> e.op, range_len |-> e.range_len, head |-> SubSeq(e.vals, 1, 16)],
-                                                       [periods |-> {p \in 1 .. 64 : HasPeriod(e.vals, p)}])
+                \* periods up to 64, and up to 300 for ranges of 256 values (a generator that cycles through the range)
+                LET mp == IF e.range_len >= 256 THEN 300 ELSE 64
+                IN (~NotPeriodic(e.vals, mp)) => Mismatch(l, [ev |-> "period", op |-> e.op, range_len |-> e.range_len, head |-> SubSeq(e.vals, 1, 16)],
+                                                          [periods |-> {p \in 1 .. mp : HasPeriod(e.vals, p)}])
            [] OTHER -> TRUE
 
 Next == l <= Len(Rec) /\ Step(Rec[l]) /\ l' = l + 1
